@@ -1342,7 +1342,13 @@ func (w *World) detectRenames() {
 		}
 		best := ""
 		n := 0
+		bestSim, secondSim := 0.0, 0.0
+		ck := make([]string, 0, len(cand))
 		for k := range cand {
+			ck = append(ck, k)
+		}
+		sort.Strings(ck)
+		for _, k := range ck {
 			np := libraryPrint(bodyPrint(w.Funcs[k]))
 			inNew := 0
 			for _, x := range gp {
@@ -1350,9 +1356,39 @@ func (w *World) detectRenames() {
 					inNew++
 				}
 			}
-			if inNew == len(gp) && jaccard(gp, np) >= 0.5 {
-				best = k
+			if sim := jaccard(gp, np); inNew == len(gp) && sim >= 0.5 {
 				n++
+				if sim > bestSim {
+					best, secondSim, bestSim = k, bestSim, sim
+				} else if sim > secondSim {
+					secondSim = sim
+				}
+			}
+		}
+		// several candidates mention everything the reviewed body did: the one that mentions little else
+		if n > 1 && bestSim-secondSim >= 0.1 {
+			n = 1
+		}
+		// ... or the one that kept the function's own name (a method made a plain function, or back)
+		if n > 1 {
+			gname := g[strings.LastIndex(g, ".")+1:]
+			same := ""
+			for _, k := range ck {
+				if k[strings.LastIndex(k, ".")+1:] == gname {
+					np := libraryPrint(bodyPrint(w.Funcs[k]))
+					all := true
+					for _, x := range gp {
+						if !slices.Contains(np, x) {
+							all = false
+						}
+					}
+					if all {
+						same = k
+					}
+				}
+			}
+			if same != "" {
+				best, n = same, 1
 			}
 		}
 		if n == 1 {
